@@ -1,5 +1,6 @@
 import Pixman.Model.Region
 import Pixman.Spec.PointSet
+import Pixman.Spec.Canon
 import Pixman.Props.C05
 import Pixman.Props.C06
 import Pixman.Props.C07
